@@ -64,6 +64,9 @@ SPECS = [
     ("y ~ f + scale(x) + (0 + center(x)|g)", "a"),  # same term names as specs 0 and 3, at other column offsets
     ("y ~ x + C(g, enc)", "a"),  # 'enc' is an encoding object the caller keeps in its namespace
     ("y ~ x + C(g, enc)", "b"),
+    ("y ~ scale(wv) + x", "a"),  # 'wv' is a float array of the caller, not a column
+    ("y ~ fn(x) + f", "a", "envA"),  # built through one caller-held Environment object with extra_namespace A ...
+    ("y ~ fn(x) + f", "a", "envB"),  # ... and B
 ]
 
 
@@ -146,6 +149,8 @@ NS_SRC = """
 def build(formula, data):
     helper = 3  # a caller local
     return design_matrices(formula, data)
+def build_env(formula, data, extra):
+    return design_matrices(formula, data, env=shared_env, extra_namespace=extra)
 def describe(formula):
     return model_description(formula)
 """
@@ -156,13 +161,25 @@ def make_ns():
 
     from formulae.categorical import Treatment
 
-    ns = {"design_matrices": design_matrices, "model_description": model_description, "np": np, "scale_factor": 2.0, "x": "not a column", "enc": Treatment()}
+    from formulae.environment import Environment
+
+    ns = {"design_matrices": design_matrices, "model_description": model_description, "np": np, "scale_factor": 2.0, "x": "not a column", "enc": Treatment(),
+          "wv": np.array([2.0, 4.5, 1.0, 3.0, 8.0, 6.5, 7.0, 0.5, 5.5, 9.0, 2.5, 4.0]), "shared_env": Environment([{"np": np}])}
     exec(NS_SRC, ns)
     return ns
 
 
 def ns_snap(ns):
-    return {k: (id(v), repr(sorted(vars(v).items())) if k == "enc" else None) for k, v in ns.items() if k != "__builtins__"}
+    def state(k, v):
+        if k == "enc":
+            return repr(sorted(vars(v).items()))
+        if isinstance(v, np.ndarray):
+            return dig(v)
+        if k == "shared_env":
+            return [sorted(map(str, d)) for d in v._namespaces] if hasattr(v, "_namespaces") else None
+        return None
+
+    return {k: (id(v), state(k, v)) for k, v in ns.items() if k != "__builtins__"}
 
 
 def frame_snap(df):
@@ -188,10 +205,14 @@ class World:
         with warnings.catch_warnings(record=True) as rec:
             warnings.simplefilter("always")
             if kind == "build":
-                f, which = SPECS[ev[1]]
+                f, which = SPECS[ev[1]][:2]
                 df = base_frame(which)
                 saved = frame_snap(df)
-                dm = self.ns["build"](f, df)
+                if len(SPECS[ev[1]]) > 2:
+                    k = 2.0 if SPECS[ev[1]][2] == "envA" else -3.0
+                    dm = self.ns["build_env"](f, df, {"fn": (lambda v, k=k: v * k)})
+                else:
+                    dm = self.ns["build"](f, df)
                 snap = snap_design(dm)
                 self.slots.append({"dm": dm, "df": df, "df0": saved, "snap": snap, "spec": ev[1]})
                 return {"snap": snap}
@@ -220,6 +241,8 @@ class World:
             if M is None:
                 return {"none": True}
             fk = (SPECS[slot["spec"]][1], ev[2])
+            if "wv" in SPECS[slot["spec"]][0]:
+                return {"none": True}  # the caller's array has the training length: new frames of other lengths are not evaluable
             if fk not in self.frames:  # the caller keeps its new-data frames: the same object is evaluated again
                 self.frames[fk] = eval_frame(*fk)
             nd = self.frames[fk]
@@ -343,15 +366,18 @@ def prepare(tier, seed):
             _HASHSEED_DIFFS.append(f"PYTHONHASHSEED={hs}: {len(diff)} reference observations differ from PYTHONHASHSEED={os.environ.get('PYTHONHASHSEED', 'random')}, e.g. {diff[0]}")
 
 
-def events_for(nslots):
-    evs = [["build", i] for i in range(len(SPECS))]
+CORE = [0, 2, 3, 4, 6, 7, 9]  # specs used for the last event of the longest histories (quick tier)
+
+
+def events_for(nslots, last=False):
+    evs = [["build", i] for i in (CORE if last and _DEPTH == 3 else range(len(SPECS)))]
     for s in range(nslots):
         for j in range(NFR):
             evs.append(["evalc", s, j])
             evs.append(["evalg", s, j])
     evs += [["cfg", m] for m in MODES]
     evs += [["cfgbad", "ignore"]]
-    evs += [["md", i] for i in range(len(SPECS))]
+    evs += [["md", i] for i in ([0, 3, 4] if last else range(len(SPECS)))]
     return evs
 
 
@@ -398,7 +424,7 @@ def expand(unit):
     n = sum(1 for e in pre if e[0] == "build")
 
     def rec(hist, nslots, depth):
-        for e in events_for(nslots):
+        for e in events_for(nslots, last=(depth + 1 >= _DEPTH)):
             h2 = hist + [e]
             yield {"h": h2}
             if depth + 1 < _DEPTH:
